@@ -73,6 +73,16 @@ def probeStep (_ : Unit) (line : String) : Unit × String :=
         | none => false
       ((), model ++ " ||| " ++ verdict okv "port-in-1..65535-or-unset")
     | _, _ => ((), "bad-op")
+  | ["life", d, s, _] =>
+    -- a prober that has been stopped delivers no further result (and none at all if it was
+    -- stopped during its initial delay)
+    let before := match d.toNat?, s.toNat? with
+      | some d, some s => if s < d * 1000 then "none" else "some"
+      | _, _ => "?"
+    let model := s!"before={before} after=0"
+    ((), model ++ " ||| " ++ (if impl == model then "ok" else
+      if (impl.splitOn "after=0").length > 1 then "bad:C10:C10:probe-results-before-stop-differ want=" ++ model
+      else "bad:C10:C10:probe-result-delivered-after-stop"))
   | ["hc", th, cf, sh, st] =>
     match th.toInt?, cf.toInt?, hexDec sh, parseB st with
     | some th, some cf, some status, some stopped =>
